@@ -219,7 +219,11 @@ def run(tier, seed):
             rows_c = [l for l in ANSI.sub("", so).split("\n") if re.match(r"^\s*[0-9A-F]+:", l)]
             rows_f = [l for l in ANSI.sub("", fso).split("\n") if re.match(r"^\s*[0-9A-F]+:", l)]
             exp_rows = ncomp + (1 if have >= 64 else 0)
-            if rows_c[:ncomp] != rows_f[:ncomp] or not (ncomp <= len(rows_c) <= exp_rows):
+            if "Init processing failed" in fse:
+                # the input is not recognised (its first RDH0 fails the preliminary check, D9): nothing is visited, cut or not
+                if rows_c:
+                    chk.spec_violations.append(dict(desc, rows=len(rows_c), what="rows printed for an input that is rejected when complete"))
+            elif rows_c[:ncomp] != rows_f[:ncomp] or not (ncomp <= len(rows_c) <= exp_rows):
                 chk.spec_violations.append(dict(desc, rows=len(rows_c), complete_packets=ncomp,
                                                 what="`view rdh` rows of the complete packets differ from the untruncated run"))
         if len(samples2) < 3 and kind == "payload" and j["mode"][0] == "check":
